@@ -189,6 +189,9 @@ func verifOffset(outer, inner []byte) int {
 }
 func verifTime(ns int64) time.Time       { return time.Unix(0, ns) }
 func verifTimeNS(t time.Time) int64      { return t.UnixNano() }
+
+// verifClockRange: every later time.Now() lies in [lo, hi) ns (engine only; natively the real clock runs)
+func verifClockRange(lo, hi int64) {}
 // native allocation monitor (replay only): heap allocations counted by the runtime between mark and check
 var verifMS runtime.MemStats
 var verifMallocs uint64
@@ -208,6 +211,7 @@ func verifIsNative() bool             { return true }
 func verifChecksumCalls() int         { return 0 }
 func verifChecksumArg(i int) []byte   { return nil }
 func verifChecksumResult(i int) uint16 { return 0 }
+func verifDebug(x int, what string) {}
 func verifRunGoroutines()                {}
 func verifPendingGoroutines() int        { return 0 }
 func verifDropGoroutines()               {}
